@@ -1,6 +1,7 @@
 import HecsModel.Model.Guards
 import HecsModel.Model.GuardJudge
 import HecsModel.Lemmas.GuardsHeld
+import HecsModel.Lemmas.Query
 /-
   C05 — Dynamic borrow checking enforces aliasing-xor-mutation, exactly.
 
@@ -385,5 +386,37 @@ theorem failed_acquisition_leaks :
     (acquire r.1.words (0, 0) false = none ∧ acquire r.1.words (0, 0) true = none) ∧
     WInv r.1 [((0, 0), true)] := by
   exact ⟨by decide, by decide, by decide, by decide, by decide, leakEx_winv⟩
+
+/-! ### the array accessors (`query_many_mut`, `View::get_many_mut`, …)
+
+They hand out one item per array slot under a single `&mut`.  `assert_distinct` refuses an array that
+names a handle twice (the judge expects the panic); for pairwise distinct handles the items are
+references into pairwise distinct rows, so no component is reachable through two of them. -/
+
+/-- the array accessors' guard: pairwise distinct handles -/
+def manyOk (es : List Entity) : Bool := es.eraseDups.length == es.length
+
+/-- two different handles that both resolve in a view resolve to different rows -/
+theorem many_distinct_rows (w : World) (hc : w.Core) (q : Q) (e₁ e₂ : Entity) (i₁ i₂ : Item)
+    (hne : e₁ ≠ e₂) (h₁ : w.viewGet q e₁ = some i₁) (h₂ : w.viewGet q e₂ = some i₂) :
+    w.locOf e₁.id ≠ w.locOf e₂.id := by
+  obtain ⟨a₁, j₁, ar₁, r₁, hl₁, hg₁, -, -, -, -⟩ := (World.viewGet_eq_some w q e₁ i₁).1 h₁
+  obtain ⟨a₂, j₂, ar₂, r₂, hl₂, hg₂, -, -, -, -⟩ := (World.viewGet_eq_some w q e₂ i₂).1 h₂
+  intro heq
+  rw [hl₁, hl₂] at heq
+  obtain ⟨ra, hra, hida⟩ := hc.loc_row e₁.id a₁ j₁ hl₁
+  obtain ⟨rb, hrb, hidb⟩ := hc.loc_row e₂.id a₂ j₂ hl₂
+  have hpos : (a₁, j₁) = (a₂, j₂) := Option.some.inj heq
+  obtain ⟨rfl, rfl⟩ := Prod.mk.inj hpos
+  rw [hra] at hrb
+  have hid : e₁.id = e₂.id := by rw [← hida, ← hidb, Option.some.inj hrb]
+  apply hne
+  cases e₁; cases e₂
+  simp only at hid hg₁ hg₂
+  subst hid
+  simp only [Entity.mk.injEq, true_and]
+  rw [← hg₁, ← hg₂]
+
+example : manyOk [⟨0, 1⟩, ⟨1, 1⟩, ⟨0, 2⟩] = true ∧ manyOk [⟨0, 1⟩, ⟨1, 1⟩, ⟨0, 1⟩] = false := by decide
 
 end Hecs.Props.C05
